@@ -245,16 +245,22 @@ def spec_clean(line):
 
 
 def splice(tree, user):
-    """Insert user[(file, cleaned_tag)] (list of byte lines) right after the opening tag."""
+    """Insert user[(file, pair_index)] (list of byte lines) right after the opening tag of the pair_index-th pair.
+
+    Keys may also be (file, cleaned_tag) : then the block goes under every pair of that name."""
     res = {}
     for rel, data in tree.items():
         lines = splitlines_keep(data)
         out = []
-        pairs = {o: name for (o, _c, name) in tag_pairs(lines)}
+        pairs = {o: (i, name) for i, (o, _c, name) in enumerate(tag_pairs(lines))}
         for i, l in enumerate(lines):
             out.append(l)
-            if i in pairs and (rel, pairs[i]) in user:
-                out.extend(user[(rel, pairs[i])])
+            if i in pairs:
+                idx, name = pairs[i]
+                if (rel, idx) in user:
+                    out.extend(user[(rel, idx)])
+                elif (rel, name) in user:
+                    out.extend(user[(rel, name)])
         res[rel] = b"".join(out)
     return res
 
